@@ -170,3 +170,24 @@ def run(ck, facts, tier):
             ck.ok(R, "map_from_canonical:binders+value")
         else:
             ck.violation(R, "map_from_canonical:binders+value", mf.where(), "both the binders' universes and the value must be mapped back")
+
+    R = "C28.PROMOTE-VISITED"
+    ck.rule(R, "K3/K2: a solution may only mention universes the query can name, so a variable of a higher universe that ends up inside the "
+               "value of a lower-universe variable must itself be lowered: in each of OccursCheck's inference-variable callbacks "
+               "(ty / const / lifetime) the universe promotion `unify_var_value(v, Unbound(self.universe_index))` is applied to the "
+               "*visited* variable (the callback's own `var`), on the `self.universe_index < ui` edge")
+    OCC = "<chalk_solve::infer::unify::OccursCheck as chalk_ir::fold::FallibleTypeFolder>"
+    for kind in ("ty", "const", "lifetime"):
+        b = need_body(ck, facts, R, OCC + "::try_fold_inference_" + kind)
+        if not b:
+            continue
+        binds = [c for t in thir_all(facts, b) for c in calls(t, "unify_var_value")]
+        inst = "try_fold_inference_%s:promotes-visited-variable" % kind
+        if not binds:
+            ck.violation(R, "missing-anchor:" + inst, b.where(), "no promotion found in the callback (moved into a helper? re-anchor the rule)")
+            continue
+        bad = [c for c in binds if not (len(c["args"]) > 1 and var_name(peel(c["args"][1])) == "var")]
+        if bad:
+            ck.violation(R, inst, b.where(bad[0].get("ln")), "the promotion binds something other than the visited variable `var`")
+        else:
+            ck.ok(R, inst)
